@@ -98,7 +98,7 @@ def _read_block(lines, i):
             raise Undecided("template: line %d inside //@extract block is not a //@ line" % (i + 1))
         body = ln.lstrip()[3:]
         st = body.strip()
-        m = re.match(r"^ (props|attr|sig|rule|requires|ensures|entry|loop-start|loop-end|before-loop|after-loop|before-call|after-call|loop|before|after)\b(.*?):\s?(.*)$", body)
+        m = re.match(r"^ (props|attr|sig-free|sig|rule|requires|ensures|entry|at-exits|loop-start|loop-end|before-loop|after-loop|before-call|after-call|loop|before|after)\b(.*?):\s?(.*)$", body)
         if m and not body.startswith("   "):
             key, arg, rest = m.group(1), m.group(2).strip(), m.group(3)
             if key == "props":
@@ -107,6 +107,8 @@ def _read_block(lines, i):
                 spec["attrs"].append(rest)
             elif key == "sig":
                 spec["sig"] = rest.strip()
+            elif key == "sig-free":
+                spec["sigfree"] = rest.split()
             elif key == "rule":
                 parts = shlex.split(rest)
                 spec["rules"].append((parts[0], _parse_kv(parts[1:])))
@@ -120,6 +122,9 @@ def _read_block(lines, i):
                 opts = _parse_kv(a[1:])
                 cur = []
                 spec["loops"][n] = dict(lines=cur, opts=opts)
+            elif key == "at-exits":
+                cur = []
+                spec["anchors"].append(dict(where="at-exits", lines=cur))
             elif key in ("after-loop", "before-loop", "loop-start", "loop-end"):
                 cur = []
                 spec["anchors"].append(dict(where=key, n=int(arg.split()[0]), lines=cur))
@@ -145,7 +150,7 @@ def _read_block(lines, i):
     raise Undecided("template: unterminated //@extract at line %d" % spec["line"])
 
 
-def _check_sig(real, override, name):
+def _check_sig(real, override, name, free=()):
     """the override must keep every real non-self parameter (name: type) in order and the return type"""
     so = Src(override)
     # locate param list of override
@@ -164,6 +169,9 @@ def _check_sig(real, override, name):
     for rp in rparams:
         if rp in ("& self", "& mut self", "self", "mut self"):
             continue
+        if rp.split(" : ")[0].replace("mut ", "") in free:
+            # R9/R12: this parameter's type is replaced by its model type (listed in the evidence)
+            continue
         while k < len(oparams) and oparams[k] != rp and oparams[k] != "mut " + rp:
             k += 1
         if k >= len(oparams):
@@ -171,6 +179,8 @@ def _check_sig(real, override, name):
         k += 1
     rret = real.sig_parts["ret"]
     rest = so.slice(pc + 1, len(so) - 1) if pc + 1 < len(so) else ""
+    if "return" in free:
+        return
     if rret:
         want = norm(rret)
         got = norm(rest)
@@ -309,19 +319,29 @@ def _stmt_end(s, st):
 
 
 def assemble(template_path, repo, verif_root, canary=False):
-    with open(template_path) as f:
-        tl = f.read().split("\n")
     out = Assembled()
+    _process(template_path, out, repo, verif_root, canary, 0)
+    return out
+
+
+def _process(path, out, repo, verif_root, canary, depth):
+    if depth > 5:
+        raise Undecided("template: include depth")
+    with open(path) as f:
+        tl = f.read().rstrip("\n").split("\n")
     i = 0
     while i < len(tl):
         ln = tl[i]
         st = ln.strip()
         if st.startswith("//@include"):
-            path = st.split()[1]
-            with open("%s/%s" % (verif_root, path)) as f:
+            ipath = "%s/%s" % (verif_root, st.split()[1])
+            with open(ipath) as f:
                 inc = f.read().rstrip("\n")
-            out.proof_fns += len(re.findall(r"\bproof fn\b", inc))
-            out.emit(inc, Origin(kind="include", src=path))
+            if "//@" in inc:
+                _process(ipath, out, repo, verif_root, canary, depth + 1)
+            else:
+                out.proof_fns += len(re.findall(r"\bproof fn\b", inc))
+                out.emit(inc, Origin(kind="include", src=st.split()[1]))
             i += 1
         elif st.startswith("//@const"):
             _, file, name = st.split()[:3]
@@ -362,13 +382,12 @@ def assemble(template_path, repo, verif_root, canary=False):
             spec, i = _read_block(tl, i)
             _emit_fn(out, spec, repo, canary)
         elif st.startswith("//@"):
-            raise Undecided("template: unknown directive %r at line %d" % (st, i + 1))
+            raise Undecided("template: unknown directive %r at line %d of %s" % (st, i + 1, path))
         else:
             if re.search(r"\bproof fn\b", ln):
                 out.proof_fns += 1
             out.emit(ln, Origin(kind="template"))
             i += 1
-    return out
 
 
 def _split_fields(s):
@@ -395,7 +414,7 @@ def _emit_fn(out, spec, repo, canary):
     clauses = []
     # signature
     if spec["sig"]:
-        _check_sig(f, spec["sig"], name)
+        _check_sig(f, spec["sig"], name, spec.get("sigfree", ()))
         sig = spec["sig"]
     else:
         sig = f.sig
@@ -459,6 +478,20 @@ def _emit_fn(out, spec, repo, canary):
             else:
                 off = s.end(s.closer(brace))
             edits.append((off, 2, mk))
+        elif w == "at-exits":
+            for p in range(len(s)):
+                if s.txt(p) == "return" and s.kind(p) == "ident":
+                    if p > 0 and s.txt(p - 1) not in ("{", ";", "}"):
+                        raise Undecided("at-exits: `return` in expression position in %s" % name)
+                    edits.append((s.start(p), 2, mk))
+            # the tail expression / last statement of the body
+            last = len(s) - 1
+            if last >= 0:
+                st = _stmt_start(s, last) if s.txt(last) != ";" else None
+                if st is not None and s.txt(st) != "return":
+                    edits.append((s.start(st), 2, mk))
+                elif st is None:
+                    edits.append((len(body), 2, mk))
         elif w in ("before-call", "after-call"):
             pos = [p for p in range(len(s) - 1) if s.txt(p) == a["call"] and s.kind(p) == "ident" and s.is_(p + 1, "(")
                    and not s.is_(p - 1, "fn")]
